@@ -102,6 +102,13 @@ Theorem c15_replay_gain_spellings :
   rg_str RgOff = b "off" /\ rg_str RgTrack = b "track" /\ rg_str RgAlbum = b "album" /\ rg_str RgAuto = b "auto".
 Proof. exact replay_gain_spellings_documented. Qed.
 
+(* shape pins of the hand-modelled renderers (saturating_add(1), "{}:{}", "{:.3}" of as_secs_f64,
+   Tag's raw rendering): tripwires regenerated from the source on every run *)
+Theorem c15_renderer_pins :
+  range_saturating = true /\ pin_songrange_argument = true /\ pin_duration_argument = true /\
+  pin_seek_format = true /\ pin_tag_argument = true.
+Proof. exact renderer_pins. Qed.
+
 (* numbers are talked about numerically: reading a rendered numeral gives the number back *)
 Theorem c15_decimal : forall n,
   dec_value (render_dec n) = n /\ forallb is_digit (render_dec n) = true /\ render_dec n <> [].
@@ -172,5 +179,6 @@ Print Assumptions c15_panics_only_documented.
 Print Assumptions c15_command_words.
 Print Assumptions c15_single_spellings.
 Print Assumptions c15_replay_gain_spellings.
+Print Assumptions c15_renderer_pins.
 Print Assumptions c15_decimal.
 Print Assumptions c15_named_tags_plain.
